@@ -412,6 +412,125 @@ func childMain(args []string) {
 			break
 		}
 	}
+	if len(cases) > 0 && cases[0].ID == 0 {
+		out.Records = append(out.Records, runSequences(baseline)...) // once per run (first batch)
+	}
 	sort.SliceStable(out.Records, func(i, j int) bool { return out.Records[i].ID < out.Records[j].ID })
 	finish()
+}
+
+// runSequences: the SAME spelling opened twice by one process while the file system changes
+// in between (a directory replaced by a symlink into a protected directory, a symlink
+// re-pointed out of one). Each open is judged on where the path leads AT THAT MOMENT.
+func runSequences(baseline map[string]string) []Record {
+	var out []Record
+	id := 5_000_000
+	open := func(path string, ro bool) (opened, refused bool, errText string) {
+		sc, err := pebbledb.NewPebbleScanner(path, pebbledb.PebbleScannerOptions{ReadOnly: ro})
+		if err != nil {
+			return false, strings.Contains(err.Error(), secText), err.Error()
+		}
+		sc.Close()
+		return true, false, ""
+	}
+	for _, prot := range protectedDirs[:3] {
+		for _, ro := range []bool{false, true} {
+			tag := fmt.Sprintf("%s-%v", prot[1:], ro)
+			// (1) a real directory becomes a symlink into a protected directory
+			base := "/work/seq-" + tag
+			os.MkdirAll(base+"/a", 0o755)
+			os.MkdirAll(prot+"/seqtarget-"+tag, 0o755)
+			p1 := base + "/a/db"
+			o1, r1, e1 := open(p1, false) // creates the database outside
+			os.Rename(base+"/a", base+"/a.was")
+			os.Symlink(prot+"/seqtarget-"+tag, base+"/a")
+			if ro {
+				// a read-only open needs an existing database at the new location
+				if sc, err := pebbledb.NewPebbleScanner(base+"/a.was/db", pebbledb.PebbleScannerOptions{}); err == nil {
+					sc.Close()
+				}
+				os.Rename(base+"/a.was/db", "/work/seq-moved-"+tag)
+				copyTree("/work/seq-moved-"+tag, prot+"/seqtarget-"+tag+"/db")
+			}
+			before := snapshot()
+			o2, r2, e2 := open(p1, ro)
+			diff := changed(before, snapshot(), prot)
+			id++
+			rec := Record{Case: Case{ID: id, Spelling: Spelling{Path: p1, Cwd: "/", Fam: "sequence"}, RO: ro}, Inside: prot, Opened: o2, Refused: r2, Err: e2, Verdict: "held",
+				Class: "sequence/dir-became-symlink-into-protected/" + map[bool]string{true: "ro", false: "rw"}[ro], ProtDiff: diff}
+			switch {
+			case !o1 || r1:
+				rec.Verdict, rec.Skipped = "held", "sequence-setup: first open failed: "+e1
+			case !r2 && (o2 || len(diff) > 0):
+				rec.Verdict, rec.Key = "violated", "not-refused/reopened-after-directory-became-symlink"
+				rec.What = fmt.Sprintf("%s was opened once while it lay outside; then %s/a was replaced by a symlink to %s/seqtarget-%s; the second open (read_only=%v) of the same spelling was not refused (opened=%v, err=%q, changes under the protected directory: %v)", p1, base, prot, tag, ro, o2, e2, diff)
+			}
+			out = append(out, rec)
+			os.RemoveAll(prot + "/seqtarget-" + tag)
+			os.RemoveAll(base)
+			os.RemoveAll("/work/seq-moved-" + tag)
+
+			// (2) a symlink into a protected directory is re-pointed to an ordinary directory
+			base2 := "/work/seq2-" + tag
+			os.MkdirAll(base2+"/real", 0o755)
+			os.MkdirAll(prot+"/seq2target-"+tag, 0o755)
+			os.Symlink(prot+"/seq2target-"+tag, base2+"/l")
+			p2 := base2 + "/l/db"
+			_, r3, _ := open(p2, ro)
+			os.Remove(base2 + "/l")
+			os.Symlink(base2+"/real", base2+"/l")
+			if ro {
+				if sc, err := pebbledb.NewPebbleScanner(base2+"/real/db", pebbledb.PebbleScannerOptions{}); err == nil {
+					sc.Close()
+				}
+			}
+			o4, r4, e4 := open(p2, ro)
+			id++
+			rec2 := Record{Case: Case{ID: id, Spelling: Spelling{Path: p2, Cwd: "/", Fam: "sequence"}, RO: ro}, Opened: o4, Refused: r4, Err: e4, Verdict: "held",
+				Class: "sequence/symlink-left-protected-dir/" + map[bool]string{true: "ro", false: "rw"}[ro]}
+			if r4 {
+				rec2.Verdict, rec2.Key = "violated", "wrongly-refused/reopened-after-symlink-left-protected-dir"
+				rec2.What = fmt.Sprintf("%s led into %s at the first open (refused=%v); then %s/l was re-pointed to %s/real; the second open (read_only=%v) of the same spelling, now outside every protected directory, was refused: %s", p2, prot, r3, base2, base2, ro, e4)
+			}
+			out = append(out, rec2)
+			os.RemoveAll(prot + "/seq2target-" + tag)
+			os.RemoveAll(base2)
+		}
+	}
+	return out
+}
+
+// changed lists entries below dir that differ between two snapshots.
+func changed(a, b map[string]string, dir string) []string {
+	var out []string
+	for k, v := range b {
+		if strings.HasPrefix(k, dir+"/") && a[k] != v {
+			out = append(out, k)
+		}
+	}
+	for k := range a {
+		if _, ok := b[k]; !ok && strings.HasPrefix(k, dir+"/") {
+			out = append(out, "-"+k)
+		}
+	}
+	sort.Strings(out)
+	return out
+}
+
+func copyTree(src, dst string) {
+	filepath.Walk(src, func(p string, info os.FileInfo, err error) error {
+		if err != nil {
+			return nil
+		}
+		rel, _ := filepath.Rel(src, p)
+		t := filepath.Join(dst, rel)
+		if info.IsDir() {
+			os.MkdirAll(t, 0o755)
+			return nil
+		}
+		if b, err := os.ReadFile(p); err == nil {
+			os.WriteFile(t, b, 0o644)
+		}
+		return nil
+	})
 }
